@@ -559,6 +559,9 @@ impl<'a> EvalState<'a> {
                 Ok(ExprValue::List(Vec::new()))
             } else {
                 let mut es = EvalState::new(tokens, self.context, &self.checked_vars);
+                // the value of a variable is evaluated in the middle of the current
+                // expression: its nesting adds to ours
+                es.depth = self.depth;
                 let e = expr_list(&mut es)?;
                 if es.peek().is_none() {
                     Ok(e)
